@@ -34,6 +34,58 @@ CS = dict(name="ctrl_sample", file=RVC, sig=r"void ompl::control::RealVectorCont
 UNITS.append(dict(name="c02_control_sampler_bounds", template="C02/ctrl_sampler.c", entry="h_ctrl", sources=[CS], enforce=["ctrl_sample"], replace=["c_uniformReal"], flags=D.DFLAGS, level="proof",
                   bound="dimension <= 64", functions=["ompl::control::RealVectorControlUniformSampler::sample"], backend="cadical", confirm=dict(unwind=4, defines={"MAXDIM": 3}),
                   canaries=[dict(name="first_dimension_bound_for_all", where="body:ctrl_sample", rx=r"bounds_\.high\[i\]", repl="bounds_.high[0]")]))
+# ---------------------------------------------------------------- control::SST::solve: solution record and path construction (bounded)
+SSTF = "src/ompl/control/planners/sst/src/SST.cpp"
+SST_RULES = [
+    (r"bool solv = goal->isSatisfied\(motion->state_, &dist\);", "double dist = 0.0; bool solv = GOAL_SAT(motion, &dist);", 0),
+    (r"opt_->isCostBetterThan\(motion->accCost_, prevSolutionCost_\)", "better(ACC[motion], prevSolutionCost_)", 0),
+    (r"for \(auto &i : prevSolution_\)\s*if \(i\)\s*si_->freeState\(i\);", "FREE_PREV_STATES();", 0),
+    (r"for \(auto &prevSolutionControl : prevSolutionControls_\)\s*if \(prevSolutionControl\)\s*siC_->freeControl\(prevSolutionControl\);", "FREE_PREV_CONTROLS();", 0),
+    (r"prevSolution_\.clear\(\);", "ps_n = 0;", 0), (r"prevSolutionControls_\.clear\(\);", "pc_n = 0;", 0), (r"prevSolutionSteps_\.clear\(\);", "pt_n = 0;", 0),
+    (r"Motion \*solTrav = (\w+);", r"Motion solTrav = \1;", 0), (r"solTrav->parent_ != nullptr", "PARENT[solTrav] != NIL", 0),
+    (r"prevSolution_\.push_back\(si_->cloneState\(solTrav->state_\)\);", "PS_PUSH(solTrav);", 0), (r"prevSolutionControls_\.push_back\(siC_->cloneControl\(solTrav->control_\)\);", "PC_PUSH(solTrav);", 0),
+    (r"prevSolutionSteps_\.push_back\(solTrav->steps_\);", "PT_PUSH(solTrav);", 0), (r"solTrav = solTrav->parent_;", "solTrav = PARENT[solTrav];", 0),
+    (r"prevSolutionCost_ = solution->accCost_;", "prevSolutionCost_ = ACC[solution];", 0),
+    (r"OMPL_INFORM\(\"Found solution with cost %\.2f\", solution->accCost_\.value\(\)\);", "", 0),
+    (r"if \(intermediateSolutionCallback\)\s*\{.*?\}", "", 0, __import__("re").S),
+    (r"sufficientlyShort = opt_->isSatisfied\(solution->accCost_\);", "sufficientlyShort = OBJ_SAT(ACC[solution]);", 0), (r"\bbreak;", "{ broke = 1; return; }", 0),
+    (r"solution == nullptr", "solution == NIL", 0),
+    (r"auto path\(std::make_shared<PathControl>\(si_\)\);", "", 0), (r"prevSolution_\.size\(\)", "(int)ps_n", 0),
+    (r"path->append\(prevSolution_\[i\], prevSolutionControls_\[i - 1\],\s*prevSolutionSteps_\[i - 1\] \* siC_->getPropagationStepSize\(\)\);", "PATH_APPEND3(PS_AT(i), PC_AT(i - 1), PT_AT(i - 1));", 0),
+    (r"path->append\(prevSolution_\[0\]\);", "PATH_APPEND1(PS_AT(0));", 0),
+]
+UNITS.append(dict(name="c02_sst_solution_record", template="C02/sst.c", mode="plain", entry="h_sst", flags=["--bounds-check", "--pointer-check", "--signed-overflow-check", "--conversion-check"], unwind=12, level="bounded",
+                  bound="tree branches of <= 3 motions", backend="minisat", timeout=900, functions=["ompl::control::SST::solve (solution record blocks and path construction)"],
+                  sources=[dict(name="record", file=SSTF, begin=r"bool solv = goal->isSatisfied\(motion->state_, &dist\);", end=r"if \(oldRep != rmotion\)", rules=SST_RULES, loops={"allow_uncontracted": True}),
+                           dict(name="path", file=SSTF, begin=r"auto path\(std::make_shared<PathControl>\(si_\)\);", end=r"solved = true;\s*pdef_->addSolutionPath\(path, approximate, approxdif, getName\(\)\);", rules=SST_RULES, loops={"allow_uncontracted": True})],
+                  canaries=[dict(name="steps_not_cleared", where="body:record", rx=r"pt_n = 0;(?=\s*Motion solTrav = approxsol;)", repl=""),
+                            dict(name="control_of_the_wrong_motion", where="body:path", rx=r"PC_AT\(i - 1\)", repl="PC_AT(i < (int)pc_n ? i : i - 1)")]))
+
+# ---------------------------------------------------------------- control::PDST::solve flag logic (bounded)
+PDSTF = "src/ompl/control/planners/pdst/src/PDST.cpp"
+S_ = __import__("re").S
+PDST_RULES = [
+    (r"double distanceToGoal, closestDistanceToGoal = std::numeric_limits<double>::infinity\(\);", "double distanceToGoal, closestDistanceToGoal = __builtin_inf();", 0),
+    (r"goal->isSatisfied\((\w+)->endState_, &(\w+)\)", r"GOAL_SAT(\1, &\2)", 0), (r"unsigned int ndim = projectionEvaluator_->getDimension\(\);", "", 0),
+    (r"return ompl::base::PlannerStatus::EXACT_SOLUTION;", "return ST_EXACT;", 0), (r"return base::PlannerStatus::INVALID_START;", "return ST_INVALID_START;", 0),
+    (r"while \(const base::State \*st = pis_\.nextStart\(\)\)\s*\{.*?\}", "ADD_STARTS();", 0, S_), (r"priorityQueue_\.empty\(\)", "PQ_EMPTY()", 0),
+    (r"base::State \*tmpState1 = si_->allocState\(\), \*tmpState2 = si_->allocState\(\);", "", 0), (r"Eigen::VectorXd tmpProj1\(ndim\), tmpProj2\(ndim\);", "", 0),
+    (r"while \(!ptc\)", "while (!PTC())", 0),
+    (r"Motion \*motionSelected = priorityQueue_\.top\(\)->data;\s*motionSelected->updatePriority\(\);\s*priorityQueue_\.update\(motionSelected->heapElement_\);", "", 0),
+    (r"Motion \*newMotion = propagateFrom\(motionSelected, tmpState1, tmpState2\);", "Motion newMotion = PROPAGATE();", 0), (r"newMotion == nullptr", "newMotion == NIL", 0),
+    (r"addMotion\(newMotion, bsp_, tmpState1, tmpState2, tmpProj1, tmpProj2\);", "", 0),
+    (r"Cell \*cellSelected = motionSelected->cell_;.*?addMotion\(motion, cellSelected, tmpState1, tmpState2, tmpProj1, tmpProj2\);", "", 0, S_),
+    (r"lastGoalMotion_ != nullptr", "lastGoalMotion_ != NIL", 0),
+    (r"Motion \*m;\s*std::vector<unsigned int> durations\(.*?(?=pdef_->addSolutionPath)", "", 0, S_),
+    (r"pdef_->addSolutionPath\(path, isApproximate, closestDistanceToGoal, getName\(\)\);", "ADD_SOLUTION(lastGoalMotion_, isApproximate, closestDistanceToGoal);", 0),
+    (r"si_->freeState\(tmpState[12]\);", "", 0), (r"return \{hasSolution, isApproximate\};", "return STATUS2(hasSolution, isApproximate);", 0),
+]
+UNITS.append(dict(name="c02_pdst_solve_flags", template="C02/pdst.c", mode="plain", entry="h_pdst", flags=["--bounds-check", "--pointer-check", "--signed-overflow-check", "--conversion-check"], unwind=7, level="bounded",
+                  bound="<= 2 iterations of the planning loop after an arbitrary earlier result", backend="minisat", timeout=600, functions=["ompl::control::PDST::solve (flag and status logic; growth, subdivision and path vector behind stubs)"],
+                  sources=[dict(name="solve", file=PDSTF, begin=r"double distanceToGoal, closestDistanceToGoal = std::numeric_limits<double>::infinity\(\);", end=r"\}\s*ompl::control::PDST::Motion \*ompl::control::PDST::propagateFrom", rules=PDST_RULES, loops={"allow_uncontracted": True})],
+                  canaries=[dict(name="flag_not_from_goal", where="body:solve", rx=r"bool isApproximate = !hasSolution \|\| !GOAL_SAT\(lastGoalMotion_, &closestDistanceToGoal\);", repl="bool isApproximate = !hasSolution; if (hasSolution) GOAL_SAT(lastGoalMotion_, &closestDistanceToGoal);"),
+                            dict(name="closer_motion_not_recorded", where="body:solve", rx=r"(else if \(distanceToGoal < closestDistanceToGoal\)\s*\{\s*closestDistanceToGoal = distanceToGoal;)\s*lastGoalMotion_ = newMotion;", repl=r"\1")]))
+
 ASSUMPTIONS = ["the user's state propagator and validity checker are deterministic callbacks; states/controls are abstract objects with ghost counters",
                "bounded: |steps| <= 4, at most 3 control samples; control dimension <= 64", "RNG contract uniformReal in [a,b)"]
 TRUSTED = ["extraction rewrite tables of units/C02.py", "stubs/harness code in units/C02/*.c", "CBMC 6.11"]
